@@ -1,9 +1,131 @@
 (* C15 — Field sets behave as mathematical sets of paths.
-   Only theorem statements closed by [exact]; the proofs are in Proofs/. *)
-From Coq Require Import List ZArith String Bool.
-From SMD Require Import Model.Value Model.Order Model.PathElem Model.PathSet.
-Import ListNotations.
+   Statements only; proofs in Proofs/{SearchLaws,KeyLaws,PesLaws,TrieBase,TrieOps,
+   TrieElems,PathSetLaws}.v.
 
-Theorem C15_empty_has_nothing : forall p, ps_has p ps_empty_set = false.
-Proof. intros [|e [|e' r]]; reflexivity. Qed.
-Print Assumptions C15_empty_has_nothing.
+   The model (Model/PathSet.v) is the trie of fieldpath.Set with every operation a
+   transliteration of the Go sorted-slice loop and lookups through the real bisection.
+   [ps_ok s] = strictly sorted members and children, no empty child, well-formed values
+   inside path elements.  Membership is decided by Path.Equals ([patheqb]), under which
+   the integer 1 and the float 1.0 are the same set member.  The reference semantics is
+   Spec/PathsAsSets.v (plain lists of paths). *)
+From Coq Require Import List ZArith String Bool Arith Permutation.
+From SMD Require Import Base.Search Model.Value Model.Order Model.PathElem Model.PathSet
+  Spec.PathsAsSets Proofs.OrderLaws Proofs.PathSetLaws.
+Import ListNotations.
+Open Scope bool_scope.
+
+(* every set a program can build is well formed *)
+Theorem C15_built_sets_are_wf : forall l, forallb wf_path l = true -> ps_ok (ps_of_paths l) = true.
+Proof. exact ps_of_paths_ok. Qed.
+Print Assumptions C15_built_sets_are_wf.
+
+Theorem C15_insert : forall p q s, ps_ok s = true -> wf_path p = true -> wf_path q = true -> q <> [] ->
+  ps_ok (ps_insert q s) = true /\ ps_has p (ps_insert q s) = patheqb p q || ps_has p s.
+Proof. exact (fun p q s Hs Hp Hq Hn => conj (ps_insert_ok q s Hs Hq) (ps_has_insert p q s Hs Hp Hq Hn)). Qed.
+Print Assumptions C15_insert.
+
+(* membership = membership in the plain set of inserted paths *)
+Theorem C15_membership : forall l p, forallb wf_path l = true -> wf_path p = true -> p <> [] ->
+  ps_has p (ps_of_paths l) = pmem p l.
+Proof. exact ps_has_of_paths. Qed.
+Print Assumptions C15_membership.
+
+Theorem C15_union : forall a b, ps_ok a = true -> ps_ok b = true ->
+  ps_ok (ps_union a b) = true /\
+  forall p, wf_path p = true -> ps_has p (ps_union a b) = ps_has p a || ps_has p b.
+Proof. exact ps_union_spec. Qed.
+Print Assumptions C15_union.
+
+Theorem C15_intersection : forall a b, ps_ok a = true -> ps_ok b = true ->
+  ps_ok (ps_inter a b) = true /\
+  forall p, wf_path p = true -> ps_has p (ps_inter a b) = ps_has p a && ps_has p b.
+Proof. exact ps_inter_spec. Qed.
+Print Assumptions C15_intersection.
+
+Theorem C15_difference : forall a b, ps_ok a = true -> ps_ok b = true ->
+  ps_ok (ps_diff a b) = true /\
+  forall p, wf_path p = true -> ps_has p (ps_diff a b) = ps_has p a && negb (ps_has p b).
+Proof. exact ps_diff_spec. Qed.
+Print Assumptions C15_difference.
+
+(* recursive difference: drop members at or beneath the other set's members *)
+Theorem C15_recursive_difference : forall a b, ps_ok a = true -> ps_ok b = true ->
+  ps_ok (ps_rdiff a b) = true /\
+  forall p, wf_path p = true -> ps_has p (ps_rdiff a b) = ps_has p a && negb (has_prefix_in p b).
+Proof. exact ps_rdiff_spec. Qed.
+Print Assumptions C15_recursive_difference.
+
+(* leaves: members with no member beneath them *)
+Theorem C15_leaves : forall a, ps_ok a = true ->
+  ps_ok (ps_leaves a) = true /\
+  forall p, wf_path p = true ->
+    ps_has p (ps_leaves a) = ps_has p a && negb (existsb (fun q => proper_prefix p q) (ps_elems a)).
+Proof. exact ps_leaves_spec. Qed.
+Print Assumptions C15_leaves.
+
+Theorem C15_prefix_selection : forall e a, ps_ok a = true -> wf_pe e = true ->
+  ps_ok (ps_with_prefix e a) = true /\
+  forall p, wf_path p = true -> p <> [] -> ps_has p (ps_with_prefix e a) = ps_has (e :: p) a.
+Proof. exact ps_with_prefix_spec. Qed.
+Print Assumptions C15_prefix_selection.
+
+(* iteration: each member exactly once, in one fixed total order; size; emptiness *)
+Theorem C15_iteration : forall s, ps_ok s = true ->
+  (forall p, wf_path p = true -> ps_has p s = pmem p (ps_elems s)) /\
+  pnodup (ps_elems s) = true /\
+  iter_sorted (ps_elems s) = true /\
+  ps_size s = List.length (ps_elems s) /\
+  (ps_empty s = true <-> ps_elems s = []).
+Proof.
+  exact (fun s Hs => conj (fun p Hp => ps_has_elems s p Hs Hp)
+          (conj (ps_elems_nodup s Hs) (conj (ps_elems_sorted s Hs)
+          (conj (ps_size_elems s) (ps_empty_elems s))))).
+Qed.
+Print Assumptions C15_iteration.
+
+(* equality is extensional: same members means Equals, however the set was built *)
+Theorem C15_equality_extensional : forall a b, ps_ok a = true -> ps_ok b = true ->
+  (ps_equals a b = true <-> forall p, wf_path p = true -> ps_has p a = ps_has p b).
+Proof. exact ps_equals_ext. Qed.
+Print Assumptions C15_equality_extensional.
+
+Theorem C15_insertion_order_irrelevant : forall l l', forallb wf_path l = true -> Permutation l l' ->
+  ps_equals (ps_of_paths l) (ps_of_paths l') = true.
+Proof. exact ps_of_paths_perm. Qed.
+Print Assumptions C15_insertion_order_irrelevant.
+
+Theorem C15_equal_sets_iterate_alike : forall a b, ps_ok a = true -> ps_ok b = true -> ps_equals a b = true ->
+  Forall2 (fun p q => patheqb p q = true) (ps_elems a) (ps_elems b).
+Proof. exact ps_equals_elems. Qed.
+Print Assumptions C15_equal_sets_iterate_alike.
+
+(* the sorted containers the trie is built from (also C17): bisection, PathElementSet,
+   PathElementMap *)
+Theorem C15_bisection : forall n f, monotone n f ->
+  search n f <= n /\ (forall k, k < search n f -> f k = false) /\ (search n f < n -> f (search n f) = true).
+Proof. exact search_spec. Qed.
+Print Assumptions C15_bisection.
+
+Theorem C15_pathelementset : forall e x l, sorted_pes l = true -> wf_pes l = true -> wf_pe e = true -> wf_pe x = true ->
+  sorted_pes (pes_insert e l) = true /\
+  pes_mem x (pes_insert e l) = peeqb x e || pes_mem x l /\
+  pes_has x l = pes_mem x l.
+Proof.
+  exact (fun e x l Hs Hw He Hx =>
+           conj (proj1 (pes_insert_sorted e l Hs Hw He))
+                (conj (pes_insert_mem e x l Hs Hw He Hx) (pes_has_spec x l Hs Hw Hx))).
+Qed.
+Print Assumptions C15_pathelementset.
+
+Theorem C15_pathelementmap : forall (A : Type) e x (v : A) l,
+  sorted_fst l = true -> forallb (fun ec => wf_pe (fst ec)) l = true -> wf_pe e = true -> wf_pe x = true ->
+  sorted_fst (pem_insert e v l) = true /\
+  pem_get x (pem_insert e v l) = if peeqb x e then Some v else pem_get x l.
+Proof. exact pem_get_insert. Qed.
+Print Assumptions C15_pathelementmap.
+
+(* non-vacuity *)
+Example C15_ok_example :
+  let s := ps_of_paths [[PEField "a"; PEField "b"]; [PEField "a"]; [PEField "a"; PEKey [("k"%string, VInt 1)]; PEField "c"]] in
+  ps_ok s = true /\ ps_size s = 3 /\ ps_has [PEField "a"; PEKey [("k"%string, VFloat (QArith_base.Qmake 1 1))]; PEField "c"] s = true.
+Proof. vm_compute. repeat split. Qed.
